@@ -295,6 +295,21 @@ func (w *World) p4JSON() map[string]interface{} {
 	}
 }
 
+// P4CounterUsed says whether a terminations entry of the switch counts into the given cell of the pre-QoS counter.
+func (w *World) P4CounterUsed(idx int) bool {
+	dp := w.p4JSON()
+
+	for _, t := range []string{"termUL", "termDL"} {
+		for _, e := range dp[t].([]map[string]interface{}) {
+			if e["ctr"] == idx {
+				return true
+			}
+		}
+	}
+
+	return false
+}
+
 // writeJSON renders one received update for the validity specification (C16): ids and byte values as
 // sent, nothing resolved through the P4Info.
 func writeJSON(u fakep4.Update) map[string]interface{} {
